@@ -8,7 +8,7 @@ M: TLC checks, for every collection tree / macro call site within the bound, tha
    level; guards the sensitivity of the specification).
 G: every collection is printed with the statement's prediction and
    * interpreted into the real types by harness/vh_core/src/bin/c02_props.rs (type-erased
-     nesting of any depth + 756 stamped statically typed shapes), and
+     nesting of any depth + ~1000 stamped statically typed shapes), and
    * for macro call sites turned into a generated Rust program of real props!/evt!/emit!
      call sites (lib/gen_c02_sites.py -> harness/vh_core/src/gen/), compiled and run.
 """
@@ -63,6 +63,7 @@ def run(ctx):
     runs = [("trees", "Props_%s.cfg" % tier, None)]
     if not ctx.quick:
         runs.append(("grow", "PropsGrow_thorough.cfg", 300))     # per worker
+    runs.append(("views", "PropsViews.cfg", None))
     runs.append(("sites", "PropsSites_%s.cfg" % tier, None))
     outs = {}
     for label, cfg, sim in runs:
@@ -89,14 +90,17 @@ def run(ctx):
     # ---- G: cases
     trees = os.path.join(ctx.out, "cases-trees.ndjson")
     n_trees = extract_cases(outs["trees"], trees)
-    if "grow" in outs:
-        grow = os.path.join(ctx.out, "cases-grow.ndjson")
-        n_grow = extract_cases(outs["grow"], grow)
-        with open(trees, "a", encoding="utf-8") as f, open(grow, encoding="utf-8") as g:
-            for l in g:
-                f.write(l)
-        n_trees += n_grow
-        ctx.cov["deep_trees_from_simulation"] = n_grow
+    for extra in ("views", "grow"):
+        if extra in outs:
+            more = os.path.join(ctx.out, "cases-%s.ndjson" % extra)
+            n_more = extract_cases(outs[extra], more)
+            if n_more == 0:
+                raise vlib.ToolError("TLC printed no %s cases" % extra)
+            with open(trees, "a", encoding="utf-8") as f, open(more, encoding="utf-8") as g:
+                for l in g:
+                    f.write(l)
+            n_trees += n_more
+            ctx.cov["cases_%s" % extra] = n_more
     sites = os.path.join(ctx.out, "cases-sites.ndjson")
     n_sites = extract_cases(outs["sites"], sites)
     if n_trees == 0 or n_sites == 0:
@@ -154,7 +158,8 @@ def run(ctx):
     if rc is None:
         ops = ctx.cov.get("ops_seen", {})
         missing = [o for o in ("and", "opt", "none", "ref", "box", "arc", "erased", "dedup", "asmap",
-                               "pair", "arr2", "slice", "btree", "hash", "empty") if not ops.get(o)]
+                               "pair", "arr2", "slice", "btree", "hash", "empty", "ctxt", "extent", "spanctxt")
+                   if not ops.get(o)]
         if missing:
             raise vlib.ToolError("vacuity: node kinds never built: %s" % missing)
     with open(trees, encoding="utf-8") as f:
@@ -174,7 +179,8 @@ def run(ctx):
         "the design-level F1 demonstration (the repaired lookup does not depend on it)",
         "macro call sites: emit!/evt! with exactly one #[cfg]-gated key-value and template holes naming a raw identifier do not compile "
         "on the pinned tree; those forms are exercised through props! only / without the hole",
-        "span, metric, extent, span-context views and ambient-context snapshots are not in this model (covered where C03/C04 bind them)",
+        "views: Extent, SpanCtxt and the ThreadLocalCtxt snapshot (distinct keys per frame; which duplicate a frame keeps is C03's subject) "
+        "are modelled; the property lists of Span and Metric events (`to_event().props()`) are NOT in this model",
         "bounded: %s | %s" % (vlib.cfg_header(os.path.join(vlib.SPEC, "Props_%s.cfg" % tier)),
                               vlib.cfg_header(os.path.join(vlib.SPEC, "PropsSites_%s.cfg" % tier))),
     ]
